@@ -144,7 +144,7 @@ def coq_ops(ops):
 
 def coq_scase(c, obs):
     mws = coq_list("(%s, (%s, %s))" % (coq_z(m["prio"]), coq_ops(m["pre"]), coq_ops(m["post"])) for m in c["mws"])
-    err = "(Some %s)" % coq_ops(c["onerror"]) if c.get("throw") else "None"
+    err = "(Some %s)" % coq_ops(c["onerror"]) if c.get("throw") else "(@None (list op))"
     return "(%s, %s, %s, %s)" % (mws, coq_ops(c["ops"]), err, coq_obs(obs))
 
 
@@ -198,7 +198,25 @@ def server_cases(ck, rng):
             hops.insert(rng.randint(0, len(hops)), rng.choice(FAILS))
         cases.append({"kind": "server", "mws": mws, "ops": hops, "onformat": onf,
                       "throw": thr, "onerror": [rand_op(rng, True) for _ in range(rng.randint(0, 3))] if thr or rng.random() < 0.3 else None})
-    return cases
+    # two overlapping requests to the SAME route: the first parks at its first write to the connection,
+    # the second is served from start to end meanwhile, then the first resumes. Each response must be
+    # what its own calls produce (the model of one request), whatever the other request did.
+    ov = []
+    for a in small[:8]:
+        for c in small[:8]:
+            ov.append({"kind": "server", "mws": [{"prio": 0, "pre": [a], "post": [c, ["write", "M"]]}], "ops": [["write", "F"]],
+                       "throw": False, "onerror": None, "overlap": True})
+    for c in small:
+        ov.append({"kind": "server", "mws": [{"prio": 0, "pre": [], "post": [c]}, {"prio": 1, "pre": [["write", "p"]], "post": [["header", "X-After", "1"]]}],
+                   "ops": [["status", 201], ["write", "F"]], "throw": False, "onerror": None, "overlap": True})
+    for _ in range(40 if ck.tier == "quick" else 600):
+        nm = rng.randint(1, 3)
+        mws = [{"prio": rng.choice([-1, 0, 0, 5]), "pre": [rand_op(rng, True) for _ in range(rng.randint(0, 2))],
+                "post": [rand_op(rng, True) for _ in range(rng.randint(1, 2))]} for _ in range(nm)]
+        thr = rng.random() < 0.2
+        ov.append({"kind": "server", "mws": mws, "ops": [rand_op(rng, True) for _ in range(rng.randint(0, 2))] + [["write", "F"]],
+                   "throw": thr, "onerror": [["status", 500], ["write", "E"]] if thr else None, "overlap": True})
+    return cases + ov
 
 
 def coq_case(ops, obs):
@@ -283,11 +301,18 @@ def main(ck):
             mcases.append({"kind": "mwscript", "prios": [rng.choice([-(2**63 - 1), -1, 0, 1, 2**63 - 1, 2**62]) for _ in range(rng.randint(2, 6))]})
 
     scases = [] if ck.replay else server_cases(ck, rng)
-    if ck.replay and cases and cases[0].get("kind") == "server":
-        scases, cases = cases, []
+    replay_r = []
+    if ck.replay and cases:
+        kind = cases[0].get("kind")
+        if kind == "server":
+            scases, cases = cases, []
+        elif kind == "mwreg":
+            replay_r, cases = cases, []
+        elif kind in ("mw", "mwscript"):
+            mcases, cases = cases, []
     # registration order: closure and class-instance middlewares interleaved with routes; each route is
     # wrapped by exactly the middlewares registered before it (checked per route with check_mcase)
-    rcases = []
+    rcases = replay_r
     if not ck.replay:
         shapes = [["mw", "closure"], ["mw", "class"], ["route"]]
         for n in (2, 3, 4):
@@ -298,6 +323,29 @@ def main(ck):
         for _ in range(60 if ck.tier == "quick" else 800):
             n = rng.randint(3, 8)
             rcases.append({"kind": "mwreg", "items": [(lambda x: list(x) + ([rng.choice([-1, 0, 0, 1, 5])] if x[0] == "mw" else []))(rng.choice(shapes)) for _ in range(n)]})
+        # route groups: ["group", parent] creates the next Server; middlewares and routes name their Server.
+        # Systematic: the root holds n0 middlewares (every slice capacity pattern up to 9) when two groups are
+        # created from it; then each of {group A, group B, root} registers one more in every order, then
+        # every Server gets a route.
+        for n0 in range(0, 10):
+            for order in itertools.permutations([1, 2, 0]):
+                items = [["mw", "closure", 0, 0] for _ in range(n0)] + [["group", 0], ["group", 0]]
+                items += [["mw", "closure" if t != 2 else "class", 0, t] for t in order[: (3 if n0 % 2 else 2)]]
+                items += [["route", 1], ["route", 2], ["route", 0]]
+                rcases.append({"kind": "mwreg", "items": items})
+        for _ in range(80 if ck.tier == "quick" else 1500):
+            ns, items = 1, []
+            for _ in range(rng.randint(4, 14)):
+                x = rng.random()
+                if x < 0.2 and ns < 5:
+                    items.append(["group", rng.randrange(ns)])
+                    ns += 1
+                elif x < 0.7:
+                    items.append(["mw", rng.choice(["closure", "class"]), rng.choice([-1, 0, 0, 0, 5]), rng.randrange(ns)])
+                else:
+                    items.append(["route", rng.randrange(ns)])
+            items += [["route", t] for t in range(ns)]
+            rcases.append({"kind": "mwreg", "items": items})
     outs, rc, err = run_impl(binary, cases + mcases + scases + rcases)
     o_reg = outs[len(cases) + len(mcases) + len(scases):]
     outs = outs[:len(cases) + len(mcases) + len(scases)]
@@ -337,31 +385,39 @@ def main(ck):
         if o.get("err"):
             ck.violation("impl-error:mwreg", {"case": c, "impl_out": o, "clause": "implementation raised"})
             continue
-        prios = []
-        r = 0
+        rops, trs = [], []
         bodies = o.get("bodies") or []
+        r = 0
         for it in c["items"]:
             if it[0] == "mw":
-                prios.append(it[2])
+                rops.append("RMw %d %s" % (it[3] if len(it) > 3 else 0, coq_z(it[2])))
+            elif it[0] == "group":
+                rops.append("RGroup %d" % it[1])
             else:
+                rops.append("RRoute %d" % (it[1] if len(it) > 1 else 0))
                 body = bodies[r] if r < len(bodies) else ""
                 tr = []
                 for part in body.split(";"):
                     if part == "F":
                         tr.append((2, 0))
-                    elif part[:1] == "E":
+                    elif part[:1] == "E" and part[1:].isdigit():
                         tr.append((0, int(part[1:])))
-                    elif part[:1] == "X":
+                    elif part[:1] == "X" and part[1:].isdigit():
                         tr.append((1, int(part[1:])))
-                es = coq_list("(%s, %d%%nat)" % (coq_z(p), k) for k, p in enumerate(prios))
-                rterms.append("(%s, %s)" % (es, coq_list("(%d%%nat, %d%%nat)" % ab for ab in tr)))
-                ridx.append((i, r))
+                    elif part:
+                        tr.append((9, 9))
+                trs.append(coq_list("(%d%%nat, %d%%nat)" % ab for ab in tr))
                 r += 1
-    rbad = ck.eval_cases("rcases", HEADER, rterms, "check_mcase", shard=1500) if rterms else {}
-    for j in sorted(rbad):
-        i, r = ridx[j]
-        ck.violation("mw:registration-order", {"case": rcases[i], "route": r, "impl_out": o_reg[i],
-                                               "clause": "a route is wrapped by exactly the middlewares registered before it, in stable priority order"})
+        rterms.append("(%s, %s)" % (coq_list(rops), coq_list(trs)))
+        ridx.append(i)
+    rbad = ck.eval_cases("rcases", HEADER, rterms, "check_gcase", shard=1500) if rterms else {}
+    for j, cls in sorted(rbad.items()):
+        i = ridx[j]
+        grouped = any(it[0] == "group" for it in rcases[i]["items"])
+        ck.violation("mw:registration-order" + (":groups" if grouped else ""),
+                     {"case": rcases[i], "routes": [x - 1 for x in cls], "impl_out": o_reg[i],
+                      "clause": "a route is wrapped by exactly the middlewares its Server holds when it is registered "
+                                "(its own and what its parents held when it was created), in stable priority order"})
     sterms, sidx = [], []
     for i, (c, o) in enumerate(zip(scases, o_srv)):
         if o.get("err"):
@@ -369,10 +425,18 @@ def main(ck):
             continue
         sterms.append(coq_scase(c, o))
         sidx.append(i)
+        if c.get("overlap"):
+            if o.get("second") is None:
+                ck.violation("impl-error:server", {"case": c, "impl_out": o, "clause": "overlap: no second observation"})
+            else:
+                sterms.append(coq_scase(c, o["second"]))
+                sidx.append(i)
     sbad = ck.eval_cases("scases", HEADER, sterms, "check_scase", shard=600) if sterms else {}
     for j, cls in sorted(sbad.items()):
         c, o = scases[sidx[j]], o_srv[sidx[j]]
         shape = "onerror" if c.get("throw") else "mw%d" % len(c["mws"])
+        if c.get("overlap"):
+            shape = "overlap:" + shape
         key = "server:%s:clauses=%s" % (shape, "".join(map(str, cls)))
         if not (2 in cls or 4 in cls):
             ck.broken.append("correspondence:C13.server")
@@ -407,7 +471,7 @@ def main(ck):
         for k in kinds:
             dist[k] = dist.get(k, 0) + 1
     mdistinct = len(set(json.dumps(c) for c in mcases if len(set(c["prios"])) < len(c["prios"]) or len(c["prios"]) > 1))
-    ck.samples = [cases[len(cases) // 3], cases[-1]] + (mcases[-1:] if mcases else [])
+    ck.samples = ([cases[len(cases) // 3], cases[-1]] if cases else []) + (mcases[-1:] if mcases else [])
     ck.cov["op_kind_distribution"] = dist
     ck.cov["length_distribution"] = {str(n): sum(1 for c in cases if len(c["ops"]) == n) for n in range(0, 13)}
     ck.cov["modes"] = {m: sum(1 for c in cases if c["mode"] == m) for m in ("go", "script")}
@@ -417,6 +481,9 @@ def main(ck):
     ck.cov["exhaustive_ops_len"] = 3 if ck.tier == "quick" else 4
     ck.samples += scases[3:4]
     ck.cov["registration_order_cases"] = len(rcases)
+    ck.cov["registration_with_groups"] = sum(1 for c in rcases if any(it[0] == "group" for it in c["items"]))
+    ck.cov["overlapping_request_cases"] = {"total": sum(1 for c in scases if c.get("overlap")),
+                                           "actually_overlapped": sum(1 for c, o in zip(scases, o_srv) if c.get("overlap") and o.get("lapped"))}
     ck.finish(level="proof", evaluations=len(cases) + len(mcases) + len(scases) + len(rcases),
               distinct_nontrivial=nontriv + mdistinct,
               rule="op sequences: all sequences up to the stated length over a 15-op pool (go-level), every single op and ordered pair at script level, seeded random sequences of length 1..12; middleware stacks: all sub-multisets orderings of {-1,0,0,1,5} plus seeded random; non-trivial = distinct sequence with a committing op and at least one other op (ops) / more than one entry (middleware)",
